@@ -87,7 +87,12 @@ Failed ==
     F("C03_Same", T.has3 => (C03_SameU(CU, T.cu3) /\ C03_SameP(CP, T.cp3))) \cup
     \* C14 on a recorded pair: cu = run on (raw, 0), cu2 = run on (pre \o raw \o post, shift)
     F("C14_Lockstep", (T.has2 /\ ~BeforeStart(T.shift, T.cu2)    \* named deviation F10b reported separately
-                       /\ ((CU.st = "done" /\ ~OpenEnded(MU)) \/ (CU.st = "fail" /\ T.nopost)))
+                       /\ \/ (CU.st = "done" /\ ~OpenEnded(MU))
+                          \/ (CU.st = "fail" /\ T.nopost)
+                          \* the run on the longer input succeeded touching nothing beyond the region of raw: the run on raw alone
+                          \* had every byte it needs (a failure there depends on bytes that are not consumed)
+                          \/ (CU.st = "fail" /\ T.cu2.st = "done" /\ T.cu2.endc <= T.shift + Len(T.raw)
+                              /\ \A i \in 1..Len(T.cu2.reads) : T.cu2.reads[i].hi <= T.shift + Len(T.raw)))
                           => C14_Lockstep(CU, T.cu2, T.shift)) \cup
     F("dev_F10b", ~(T.has2 /\ Dev_F10b(T.shift, T.cu2)))
 
